@@ -51,11 +51,11 @@ def ifdata_number_cases():
 
 def gen_cases(rng, tier):
     cases = boundary_cases() + ifdata_number_cases()
-    n = 200 if tier == 'quick' else 6000
+    n = 200 if tier == 'quick' else 15000
     for i in range(n):
         node, text, toks = docs.random_doc(rng, size=rng.choice(['tiny', 'small', 'small', 'medium']),
                                            ifdata=rng.choice([None, 'unknown', 'unknown', 'empty']),
-                                           a2ml='simple' if rng.random() < 0.1 else None)
+                                           a2ml='simple' if rng.random() < 0.1 else None, dupnames=0.2)
         cases.append({'text': text, 'strict': True, 'kind': 'doc'})
     return cases
 
